@@ -132,6 +132,12 @@ def main(ctx):
                 o = Output(len(r), 'oreg_' + r.name)
                 o <<= r
                 d.outputs.append(o)
+            if d.inputs and rng.random() < 0.5:
+                # a fresh wire whose only reader is one net that reads it three or more times
+                t = d.inputs[0] & d.inputs[-1][0:1].sign_extended(len(d.inputs[0])) if len(d.inputs[0]) > 1 else ~d.inputs[0]
+                o = Output(name='orep')
+                o <<= pyrtl.concat(*([t] * rng.randint(3, 5)))
+                d.outputs.append(o)
         steps = gen.rand_stimulus(rng, d, rng.choice([3, 5]))
         _, memmap, _ = gen.rand_init(rng, d, with_default=False)
         memmap_by_id = {m.id: mm for m, mm in memmap.items()}
@@ -150,6 +156,7 @@ def main(ctx):
                 for g in sorted(GATE_PASSES):
                     seqs.append(('synth', bs, (g,)))
                     seqs.append(('synth', bs, (g, rng.choice(gnames))))
+                seqs.append(('synth', bs, (rng.choice(gnames),)))        # a generic pass alone on the bit-level netlist
                 seqs.append(('synth', bs, ('nand_synth', 'and_inverter_synth')))
                 seqs.append(('synth', bs, ('and_inverter_synth', 'nand_synth')))
                 seqs.append(('synth', bs, (rng.choice(gnames), rng.choice(sorted(GATE_PASSES)))))
